@@ -44,12 +44,12 @@ MatchStep(c, m, q) ==
             IN [r |-> d, c |-> LSet(c, cap, k, d), hit |-> FALSE]
 
 \* findAllowedMethods: probe every other method in anyMethods order, threading the cache
-RECURSIVE Probe(_, _, _, _)
-Probe(c, m, q, i) ==
+RECURSIVE ProbeAllowed(_, _, _, _)
+ProbeAllowed(c, m, q, i) ==
   IF i > 9 THEN [allow |-> {}, c |-> c]
-  ELSE IF Nine[i] = m THEN Probe(c, m, q, i + 1)
+  ELSE IF Nine[i] = m THEN ProbeAllowed(c, m, q, i + 1)
   ELSE LET s == MatchStep(c, Nine[i], q)
-           rest == Probe(s.c, m, q, i + 1)
+           rest == ProbeAllowed(s.c, m, q, i + 1)
        IN [allow |-> (IF s.r # 0 THEN {Nine[i]} ELSE {}) \cup rest.allow, c |-> rest.c]
 
 QuickMatchC(c0, m, q0) ==
@@ -60,7 +60,7 @@ QuickMatchC(c0, m, q0) ==
        IF s2.r # 0 THEN [res |-> RouteRes(s2.r, "head"), c |-> s2.c, hit |-> s2.hit]
        ELSE IF opts.hfb /\ StarRoutes(m) # {} THEN [res |-> RouteRes((CHOOSE e \in StarRoutes(m) : TRUE).r, "fallback"), c |-> s2.c, hit |-> FALSE]
        ELSE IF opts.hmna
-            THEN LET pr == Probe(s2.c, m, q, 1) IN
+            THEN LET pr == ProbeAllowed(s2.c, m, q, 1) IN
                  IF pr.allow # {} THEN [res |-> [kind |-> "notallowed", r |-> 0, via |-> "none", allow |-> pr.allow], c |-> pr.c, hit |-> FALSE]
                  ELSE [res |-> NotFound, c |-> pr.c, hit |-> FALSE]
             ELSE [res |-> NotFound, c |-> s2.c, hit |-> FALSE]
